@@ -17,7 +17,8 @@ def _enter_session():
 def _exit_session(exception):
     session = getattr(request, 'pony_session', None)
     if session is not None:
-        session.__exit__(exc=exception)
+        if exception is None: session.__exit__()
+        else: session.__exit__(type(exception), exception, getattr(exception, '__traceback__', None))
 
 class Pony(object):
     def __init__(self, app=None):
